@@ -10,6 +10,9 @@ CLAIMED={
  "C08":("exploration","after every API call in seeded histories (two groups, id rotation, relay/admin/image updates, rollbacks, restarts): stored record + relays == MLS state, lookup by the id in force, no 'group not found' for an active member, no cross-group effect","§8 C08","honest members"),
  "C11":("exploration","each seeded history on SQLite/SQLCipher is executed twice from one seed, with clean restarts at seeded positions and with the restarts replaced by no-ops; per-step reseeding makes both executions byte-comparable, so every later API result and per-step fingerprint must be equal","§8 C11","clean shutdown only; same constructor/key/config on reopen"),
  "C20":("exploration","after every step list_group_snapshots of every client/group is compared with an executable snapshot-queue model (retention 0..6, TTL 5..120 s, clock jumps, rollbacks, restarts)","§8 C20","snapshot age measured on the node's simulated clock"),
+ "C09":("exploration","storage-level operation sequences on each backend (trait writes + OpenMLS StorageProvider writes with harness blobs) interleaved with snapshot create/rollback/release/list/prune/reopen, with a full dump of every read method around each of them (restored part equals the dump at snapshot time, everything else equals the dump just before); plus a frame check around every rollback in world runs","§8 C09","snapshot of a missing group / rollback onto a taken Nostr id are outside the contract"),
+ "C10":("exploration","three-way differential over seeded operation sequences: memory backend vs SQLite backend (with reopen) vs executable reference model of the storage contract, canonical results compared per call","§8 C10","inputs within both backends' validation limits; unordered results compared as sets"),
+ "C18":("exploration","message-heavy world runs with forced timestamp ties: after every step default order == documented total order and last-message pointer == first non-invalidated message; periodically both sort modes, page concatenation for sizes 1/2/3/7, limit bounds, offsets beyond the end; storage-level ordering is part of C10","§8 C18","'not invalidated' = state other than epoch_invalidated"),
 }
 checks=[]
 for pid,(cat,text,ref,note) in CLAIMED.items():
